@@ -182,7 +182,11 @@ func (uconn *UConn) uLoadSession() error {
 		if session.version == VersionTLS12 {
 			// We use the session ticket extension for tls 1.2 session resumption
 			uconn.sessionController.initSessionTicketExt(session, hello.sessionTicket)
-			uconn.sessionController.setSessionTicketToUConn()
+			// initSessionTicketExt skips the session when the spec has no session
+			// ticket extension (PreferSkipResumptionOnNilExtension); nothing to set then.
+			if uconn.sessionController.state == SessionTicketExtInitialized {
+				uconn.sessionController.setSessionTicketToUConn()
+			}
 		} else {
 			uconn.sessionController.initPskExt(session, earlySecret, binderKey, hello.pskIdentities)
 		}
